@@ -52,6 +52,13 @@ def notDemandedBridgeToken : List String := ["BridgerAddress", "ChainName", "Nam
 /-- how every `ClaimHash` must turn the path into the digest -/
 def expectedHashExpr : String := "tmhash.Sum([]byte(path))"
 
+/-! ## `AddBridgeTokenExecuted`: the REGENERATED statement list (`Gen/C03.lean` `addBridgeTokenProg`) interpreted -/
+
+/-- what `AddBridgeTokenExecuted(claim)` does on the keeper of module `m` whose bridge-denom store holds `st`: the writes
+(`ok`), or an error (nothing written) -/
+def runAddBridgeToken (m : Str) (st : List (Str × Str)) (c : MsgBridgeTokenClaim) : HRes :=
+  runProg c.fieldEnv m addBridgeTokenProg { store := st }
+
 /-! ## claim hash = SHA-256 of the path bytes (`tmhash.Sum`) -/
 
 def hashHex (path : Str) : String := FxVerif.Sha256.sha256Hex (path.map Char.toNat)
